@@ -439,7 +439,13 @@ def proof_stage(res, prop, extra_targets=()):
         if res.tier == "thorough":
             # independent re-check of the compiled files (and everything they depend on) with coqchk
             budget = int(os.environ.get("VERIF_COQCHK_SECONDS", "600"))
-            rc, out = sh(["timeout", str(budget), "coqchk", "-silent", "-o", "-R", ".", "PV", "PV.Props.%s" % prop], budget + 60, cwd=COQ)
+            if budget <= 0:
+                res.notes["coqchk"] = "skipped (VERIF_COQCHK_SECONDS=%d); the coqc kernel check stands" % budget
+                return broken
+            try:
+                rc, out = sh(["timeout", "-k", "10", str(budget), "coqchk", "-silent", "-o", "-R", ".", "PV", "PV.Props.%s" % prop], budget + 60, cwd=COQ)
+            except subprocess.TimeoutExpired:
+                rc, out = 124, ""
             summary = out[out.find("CONTEXT SUMMARY"):] if "CONTEXT SUMMARY" in out else out[-1500:]
             res.checker_cmd += " && coqchk -silent -o -R . PV PV.Props.%s" % prop
             if rc == 124:
